@@ -366,7 +366,7 @@ def one(rng, maxticks):
 
 
 def gen(rng, tier):
-    n, mt = {"quick": (3000, 12), "thorough": (60000, 40), "search": (12000, 16)}[tier]
+    n, mt = {"quick": (3000, 12), "thorough": (40000, 40), "search": (12000, 16)}[tier]
     for _ in range(n):
         yield one(rng, mt)
 
